@@ -13,7 +13,7 @@ META = {
         "order. R2: that sort is stable and ascending. R3: legs are grouped by (disposal date, ticker) and the groups sorted by "
         "the shared comparator; same-day lots are consumed as one aggregate (date filter only, all lots of the date). R4: the CLI "
         "joins input files with a line break before parsing. R5: within a date the day loop runs separate passes (acquisitions, "
-        "disposals, pooling, splits) so the order of same-day lines cannot matter (shared with C01-R2). R5 also: the cost pre-pass applies a date's events before that date's purchases join the tracked lots (shared with C11-R3). Does not decide invariance under permutations/partitions. R5 also: candidate effects of the 30-day look-ahead lie behind the `days ≥ 1` test (shared with C01-R3). R6: the transaction list is never thinned — two identical part fills are two lines (shared with C02-R10). R7: the ratio a candidate purchase of the look-ahead is rescaled with is not the accumulator that its own date's SPLIT lines update line by line (known finding: it is)."),
+        "disposals, pooling, splits) so the order of same-day lines cannot matter (shared with C01-R2). R5 also: the cost pre-pass applies a date's events before that date's purchases join the tracked lots (shared with C11-R3). Does not decide invariance under permutations/partitions. R5 also: candidate effects of the 30-day look-ahead lie behind the `days ≥ 1` test (shared with C01-R3). R6: the transaction list is never thinned — two identical part fills are two lines (shared with C02-R10). R7: the ratio a candidate purchase of the look-ahead is rescaled with is not the accumulator that its own date's SPLIT lines update line by line (known finding: it is). R3 also: a same-day sale debits the day's lots pro rata with a ratio fixed before the loop (shared with C03-R4). R4 also: the CLI joins every input file whole — nothing takes a file's text apart or thins it between reading and joining."),
     "trusted_base": ["Vec::sort_by is stable", "rustc MIR + resolution"],
 }
 
